@@ -28,6 +28,7 @@ func main() {
 	budget := flag.Int("budget", 0, "random scripts per stream (0 = tier default)")
 	flag.StringVar(&driverPath, "driver", "/verif/lean/.lake/build/bin/lsdriver", "lsdriver binary")
 	concChild := flag.String("conc-storage-child", "", "internal: run the global-storage scenario in this fresh process")
+	only := flag.String("stream", "", "run only this stream of the property (debugging)")
 	flag.Parse()
 	// Lightning Stream must not depend on the host's time zone: the whole harness runs with a
 	// non-UTC local zone (time.Now(), time.Unix and header.Timestamp.Time() all carry it).
@@ -47,6 +48,15 @@ func main() {
 	if !ok {
 		fmt.Fprintln(os.Stderr, "unknown property", *prop)
 		os.Exit(2)
+	}
+	if *only != "" {
+		var f []Stream
+		for _, st := range streams {
+			if st.Name == *only {
+				f = append(f, st)
+			}
+		}
+		streams = f
 	}
 	b := *budget
 	if b == 0 {
